@@ -13,7 +13,7 @@ CHECKS = {
  "C02": (MC, "TLA+ rounding oracle (Exact/MpfPost) model-checked in small scope + TLC exhaustive model of the transcribed libmp algorithms (MpfMachine, Algo => Post) with every transition replayed on the real functions + TLC trace validation of recorded calls on limb integers",
          "RoundingLemmas (TLC, exhaustive small universe) ties the checker/functional forms of the rounding oracle together; "
          "every recorded call of add/sub/mul/div/sqrt/neg/abs/pos/constructors/fsum/fdot through four entry levels is judged by TLC "
-         "against MpfPost in exact limb arithmetic (total verdicts). MpfMachine (TLC, exhaustive): transcribed _normalize/mpf_add/mpf_mul/mpf_div equal the correctly rounded exact result "
+         "against MpfPost in exact limb arithmetic (total verdicts). MpfMachine (TLC, exhaustive): transcribed _normalize/mpf_add/mpf_mul/mpf_div/mpf_sqrt equal the correctly rounded exact result "
          "for every operand pair, precision and mode of a miniature universe (scaled constants on native ints; real constants on limbs with exponents astride the far threshold); each transition is replayed on the real function (identical tuple).",
          "Trusted: TLC evaluator, CommunityModules Json, ZLimb (refinement-checked by ZLimbCheck), the recorder's encoder. "
          "Exponents beyond 2^30 are not encoded. Sampling at real sizes is seeded, not exhaustive.", "DESIGN.md §4 C02"),
